@@ -21,6 +21,20 @@ class TranslateError(Exception):
     pass
 
 
+
+def _write_if_changed(path, text):
+    """atomic, and only when the content differs: concurrent checks regenerate the same files"""
+    try:
+        if open(path).read() == text:
+            return
+    except OSError:
+        pass
+    tmp = "%s.tmp%d" % (path, os.getpid())
+    with open(tmp, "w") as f:
+        f.write(text)
+    os.replace(tmp, path)
+
+
 def strip_comments(src):
     """Remove // comments (outside string literals), keep newlines so line numbers survive."""
     out, i, n, in_str = [], 0, len(src), False
@@ -907,18 +921,15 @@ def main():
     PL.append("end RlModel.Gen")
     ptext = "\n".join(PL) + "\n"
     pp = os.path.join(outdir, "PlanRules.lean")
-    if not os.path.exists(pp) or open(pp).read() != ptext:
-        open(pp, "w").write(ptext)
+    _write_if_changed(pp, ptext)
     text = "\n".join(L) + "\n"
     p = os.path.join(outdir, "Rules.lean")
-    if not os.path.exists(p) or open(p).read() != text:
-        open(p, "w").write(text)
+    _write_if_changed(p, text)
     js = {"rules": [{k: r.get(k) for k in ("id", "name", "file", "line", "lists", "lhs", "rhs", "applier", "conds", "kind", "insts", "sig", "pstmt", "concl", "lhs_ast", "rhs_ast", "lhs_extra_parens", "rhs_extra_parens")} | ({"untranslatable": r["untranslatable"]} if "untranslatable" in r else {}) for r in uniq],
           "lists": lists, "stages": stages, "extra_rules": extra, "stage_calls": stage_calls}
     pj = os.path.join(outdir, "rules.json")
     tj = json.dumps(js, indent=1)
-    if not os.path.exists(pj) or open(pj).read() != tj:
-        open(pj, "w").write(tj)
+    _write_if_changed(pj, tj)
     print("translated %d rule definitions (%d distinct; %d expression rules, %d typed instantiations)" % (
         len(rules), len(uniq), sum(1 for r in uniq if r["kind"] == "xexpr"), len(xinsts)))
 
